@@ -91,7 +91,7 @@ def ekuextOp : List String → String
       let t : Template := { eku := k, unknownEKU := u }
       if ekuEmitted t then
         match allSome (k.map oidFromEKU) with
-        | none => "panic"
+        | none => "create-error"      -- an ExtKeyUsage value without an OID: refused (since fix of round 12; it was `panic("internal error")`)
         | some _ =>
           match encEKU k u with
           | none => "create-error"
